@@ -8,7 +8,7 @@
                         that were missing on its path *)
 From Coq Require Import List NArith Bool Permutation.
 Import ListNotations.
-Require Import V.C38.Spec V.C38.Rows V.C37.Model V.C37.Proofs V.C37.Create V.C37.Clauses V.C37.Tie V.C37.Tie2.
+Require Import V.C38.Spec V.C38.Rows V.C37.Model V.C37.Proofs V.C37.Create V.C37.Clauses V.C37.Tie V.C37.Tie2 V.C37.Tie3.
 Open Scope N_scope.
 
 (* rows after = rows before + the new object and the missing containers on its path (each a non-empty
@@ -104,7 +104,7 @@ Proof. exact set_value_survives_quoting. Qed.
 
 (* the executable clauses (codes 10-15) that Check.v evaluates on the IMPLEMENTATION's before / after
    projections hold on the specification's own output, for every graph that passes the executable
-   well-formedness test (code 2): Set on objects, Set on connections, Create of objects *)
+   well-formedness test (code 2): all four operations *)
 Theorem C37_spec_satisfies_clauses_set_obj :
   forall g t c v g' tp,
     wf_b g = true -> spec_set_obj g t c v = Some g' -> path_of (rows g) t = Some tp ->
@@ -123,6 +123,12 @@ Theorem C37_spec_satisfies_clauses_create_obj :
     wf_b g = true -> spec_create_object g key unq = Some (ret, g') ->
     cl_create_obj (prows g) (pedges g) (prows g') (pedges g') ret = [].
 Proof. exact clauses_create_obj. Qed.
+
+Theorem C37_spec_satisfies_clauses_create_edge :
+  forall g src dst sa da ret g',
+    wf_b g = true -> spec_create_edge g src dst sa da = Some (ret, g') ->
+    cl_create_edge (prows g) (pedges g) (prows g') (pedges g') ret = [].
+Proof. exact clauses_create_edge. Qed.
 
 (* non-vacuity *)
 Definition ex_g : graph :=
@@ -159,3 +165,4 @@ Print Assumptions C37_set_value_survives_quoting.
 Print Assumptions C37_spec_satisfies_clauses_set_obj.
 Print Assumptions C37_spec_satisfies_clauses_set_edge.
 Print Assumptions C37_spec_satisfies_clauses_create_obj.
+Print Assumptions C37_spec_satisfies_clauses_create_edge.
